@@ -2,7 +2,9 @@
 EXTENDS NoiseHelper
 MCM == 3
 MCNames == {[dev |-> "dev", exp |-> "none"], [dev |-> "dev", exp |-> "dev"], [dev |-> "none", exp |-> "dev"],
-            [dev |-> "none", exp |-> "none"], [dev |-> "oth", exp |-> "dev"], [dev |-> "oth", exp |-> "none"]}
+            [dev |-> "none", exp |-> "none"], [dev |-> "oth", exp |-> "dev"], [dev |-> "oth", exp |-> "none"],
+            \* a name that is announced but empty is a name like any other (only an ABSENT name is exempt)
+            [dev |-> "", exp |-> "dev"], [dev |-> "", exp |-> "none"]}
 NFc == MCM + 2
 MCDevs ==
   {[k |-> "none", i |-> 0]}
@@ -16,6 +18,7 @@ MCDevs ==
         [k |-> "proto", i |-> 0], [k |-> "empty", i |-> 0], [k |-> "plaindev", i |-> 0]}
 \* deviations are exercised with a matching name configuration only
 GenNames == {[dev |-> "dev", exp |-> "dev"], [dev |-> "none", exp |-> "none"],
-             [dev |-> "oth", exp |-> "dev"], [dev |-> "oth", exp |-> "none"]}
+             [dev |-> "oth", exp |-> "dev"], [dev |-> "oth", exp |-> "none"],
+             [dev |-> "", exp |-> "dev"], [dev |-> "", exp |-> "none"]}
 DevOnlyWithGoodName == dev.k = "none" \/ nm = [dev |-> "dev", exp |-> "dev"]
 =============================================================================
